@@ -6,7 +6,12 @@ algebraic identities of the statement (symmetry, zero row sums, Re(G^H A G) = L,
 inverse/sqrt, one entry per incidence) are evaluated on the returned matrices themselves.
 
 Histories: every operator on its own fresh mesh object ("fresh"), or all operators in a random order on one object that shares
-the cached attributes ("shared"), or the same after corner angles were cached, which switches the cotangent code path ("angles")."""
+the cached attributes ("shared"), or the same after corner angles were cached, which switches the cotangent code path ("angles"),
+or the same on an object that already carries the attributes the operators pick up by name ("area", "cotan", "angles", vertex
+"normals", cell "volume"), stored as dictionaries ("cached_sparse") or arrays ("cached_dense").
+
+Units: a share of every input kind is re-expressed in very small / very large units of length (uniform scale 1e-7, 1e-9, 1e6);
+every identity is homogeneous in the unit and every tolerance is relative to the size of the operator's own entries."""
 import math
 import random
 
@@ -23,7 +28,8 @@ RULE = ("certified oriented manifold triangulations from the surface zoo (grids,
         "anchors, disjoint unions; flipped / renumbered / face-rotated / rigidly moved and scaled; regular and generic position), planar "
         "triangulations (flat connection), polygon surfaces (graph operators, documented rejections), tetrahedral meshes of the volume zoo and "
         "graph polylines; each operator option (cotan/uniform, weights one/length/custom, inverse, sqrt, oriented, complex/real gradient, matrix "
-        "format); operators evaluated on fresh objects or in random order on one object sharing mouette's cached attributes; "
+        "format); each kind also in units of 1e-7, 1e-9 and 1e6; operators evaluated on fresh objects, or in random order on one object sharing "
+        "mouette's cached attributes, or on an object that already carries those attributes stored sparsely (dict) or densely (array); "
         "non-trivial = triangulated surface with >= 20 faces and a border, or >= 20 cells; distinct = distinct (coordinates, element list) hash")
 REQUIRED = {
     "lap_cotan/stiffness": 60, "lap_cotan/symmetric": 60, "lap_cotan/row_sum": 60, "lap_uniform/stiffness": 60,
@@ -58,6 +64,13 @@ ASSUMPTIONS = [
 
 EPS = 2.220446049250313e-16
 FORMATS = ["csc", "csr", "coo", "lil", "dia"]
+# histories (see module docstring); "cached_*": the attributes the operators pick up by name were put on the mesh beforehand,
+# stored as dictionaries (sparse) or as arrays (dense)
+HIST = ["fresh", "shared", "angles", "cached_sparse", "shared", "cached_dense"]
+VHIST = ["fresh", "shared", "cached_sparse", "cached_dense"]
+# uniform change of the unit of length applied to the certified input (1 = as drawn)
+UNITS = [1e-7, 1e-9, 1e6]
+SCALES = [1.0, 1.0, 1e-7, 1.0, 1e6, 1e-9, 1.0]  # period 7: coprime with the periods of the histories, formats and containers
 
 
 # ----------------------------------------------------------------------------- case plan
@@ -67,34 +80,42 @@ def cases(seed, tier):
     n_tri, n_flat, n_poly, n_vol, n_graph = (220, 40, 30, 64, 46) if quick else (28000, 5000, 2500, 9000, 3500)
     out = []
     # anchors: the smallest inputs of each kind (one element, two elements, smallest closed surface), every history
-    for h in ("fresh", "shared", "angles"):
+    for h in ("fresh", "shared", "angles", "cached_sparse", "cached_dense"):
         for a in ("one_triangle", "two_triangles", "tetra_surface", "octahedron"):
             out.append({"gen": "tri", "anchor": a, "seed": 1, "generic": False, "history": h, "vrows": "list", "irows": "list", "fmt": "csc"})
-    for h in ("fresh", "shared"):
+    for h in ("fresh", "shared", "cached_sparse", "cached_dense"):
         for a in ("one_tet", "two_tets"):
             out.append({"gen": "vol", "anchor": a, "seed": 1, "jitter": 0.0, "history": h, "irows": "list", "fmt": "csr"})
-    hist = ["fresh", "shared", "angles", "shared"]
+    # the anchors again in very small and very large units (every identity is homogeneous in the unit of length)
+    for k, sc in enumerate(UNITS):
+        for a in ("two_triangles", "octahedron"):
+            out.append({"gen": "tri", "anchor": a, "seed": 1, "generic": False, "history": HIST[k % len(HIST)], "vrows": "list", "irows": "list",
+                        "fmt": "csc", "scale": sc})
+        out.append({"gen": "vol", "anchor": "two_tets", "seed": 1, "jitter": 0.0, "history": VHIST[k % len(VHIST)], "irows": "list", "fmt": "csr",
+                    "scale": sc})
+    hist, vhist, scales = HIST, VHIST, SCALES
     vr = ["list", "tuple", "nprow", "vec"]
     ir = ["list", "tuple", "npint", "nprow"]
     for i in range(n_tri):
         big = i % 3 == 0  # a third of the surfaces: at least 20 faces and a border (the non-trivial class of RULE)
         out.append({"gen": "tri", "seed": rng.randrange(2 ** 31), "max_size": [6, 4, 8][i % 3] if quick else [8, 4, 12, 6][i % 4],
-                    "generic": i % 2 == 0, "history": hist[i % 4], "vrows": vr[i % 4], "irows": ir[(i // 4) % 4],
+                    "generic": i % 2 == 0, "history": hist[i % len(hist)], "scale": scales[i % len(scales)], "vrows": vr[i % 4], "irows": ir[(i // 4) % 4],
                     "closed": False if big else [None, None, False, True][(i // 2) % 4], "min_faces": 20 if big else 1, "fmt": FORMATS[i % 5]})
     for i in range(n_flat):
         out.append({"gen": "flat", "seed": rng.randrange(2 ** 31), "max_size": [6, 4, 8][i % 3], "min_faces": 20 if i % 3 == 0 else 1,
-                    "generic": i % 2 == 0, "history": hist[i % 4], "vrows": vr[i % 4], "irows": ir[(i // 4) % 4], "fmt": FORMATS[i % 5]})
+                    "generic": i % 2 == 0, "history": hist[i % len(hist)], "scale": scales[(i + 2) % len(scales)], "vrows": vr[i % 4],
+                    "irows": ir[(i // 4) % 4], "fmt": FORMATS[i % 5]})
     for i in range(max(8, n_flat // 3)):
         out.append({"gen": "flat", "seed": rng.randrange(2 ** 31), "max_size": [4, 6][i % 2], "min_faces": 1, "sliver": [1e-2, 2e-3, 5e-4][i % 3],
-                    "generic": True, "history": hist[i % 4], "vrows": vr[i % 4], "irows": ir[(i // 4) % 4], "fmt": FORMATS[i % 5]})
+                    "generic": True, "history": hist[i % len(hist)], "vrows": vr[i % 4], "irows": ir[(i // 4) % 4], "fmt": FORMATS[i % 5]})
     for i in range(n_poly):
-        out.append({"gen": "poly", "seed": rng.randrange(2 ** 31), "max_size": 5, "history": hist[i % 2],
+        out.append({"gen": "poly", "seed": rng.randrange(2 ** 31), "max_size": 5, "history": hist[i % 2], "scale": scales[(i + 1) % len(scales)],
                     "vrows": vr[i % 4], "irows": ir[(i // 4) % 4]})
     for i in range(n_vol):
         out.append({"gen": "vol", "seed": rng.randrange(2 ** 31), "max_size": [2, 3][i % 2] if quick else [2, 3, 4][i % 3],
-                    "jitter": [0.0, 0.0, 0.02][i % 3], "history": hist[i % 2], "irows": ir[i % 3], "fmt": FORMATS[i % 5]})
+                    "jitter": [0.0, 0.0, 0.02][i % 3], "history": vhist[i % len(vhist)], "scale": scales[(i + 3) % len(scales)], "irows": ir[i % 3], "fmt": FORMATS[i % 5]})
     for i in range(n_graph):
-        out.append({"gen": "graph", "seed": rng.randrange(2 ** 31), "max_n": 30 if quick else 60, "history": hist[i % 2],
+        out.append({"gen": "graph", "seed": rng.randrange(2 ** 31), "max_n": 30 if quick else 60, "history": hist[i % 2], "scale": scales[i % len(scales)],
                     "reverse": i % 3 == 1})
     return out
 
@@ -172,6 +193,49 @@ def _custom_weights(rng, m):
         r = rng.random()
         w[e] = 0.0 if r < 0.03 else (-rng.uniform(0.1, 3) if r < 0.15 else rng.uniform(0.05, 7))
     return w
+
+
+def _rescale(ctx, desc, V):
+    """The certified input expressed in another unit of length (uniform scale about the origin)."""
+    V = np.array(V, dtype=float)
+    sc = float(desc.get("scale", 1.0) or 1.0)
+    ctx.cls("unit:%g" % sc)
+    if sc != 1.0:
+        V = V * sc
+    return V
+
+
+def _attach(container, name, values, dense):
+    """Stores `values` (one float per element) on the mesh under `name`, as a dictionary (sparse) or array (dense) attribute."""
+    attr = container.create_attribute(name, float, dense=dense)
+    for i in range(len(container)):
+        attr[i] = float(values[i])
+    return attr
+
+
+def _precache_surface(ctx, M, m, dense, rng):
+    """History "cached_*": before any operator runs, the mesh already carries the attributes that the operators pick up by name
+    ("area" on faces always; "angles" / "cotan" on corners and "normals" on vertices for a random subset), holding the values
+    mouette itself computes for them, stored sparsely (dictionary) or densely (array)."""
+    A = M.attributes
+    kind = "dense" if dense else "sparse"
+    ctx.call("face_area", A.face_area, m, dense=dense, monitor="construct", abort=False)
+    ctx.cls("precached:area:" + kind)
+    if rng.random() < 0.5:
+        ctx.call("vertex_normals", A.vertex_normals, m, dense=dense, monitor="construct", abort=False)
+        ctx.cls("precached:normals:" + kind)
+    want_angles, want_cotan = rng.random() < 0.4, rng.random() < 0.6
+    try:  # corner attributes can only be made persistent as arrays by mouette; the dictionary flavour is attached by hand
+        if want_angles:
+            vals = A.corner_angles(m, persistent=False, dense=True)
+            _attach(m.face_corners, "angles", vals, dense)
+            ctx.cls("precached:angles:" + kind)
+        if want_cotan:
+            vals = A.cotangent(m, persistent=False, dense=True)
+            _attach(m.face_corners, "cotan", vals, dense)
+            ctx.cls("precached:cotan:" + kind)
+    except Exception:  # noqa
+        ctx.note("precache_failed")
 
 
 class _Meshes:
@@ -334,10 +398,11 @@ def _verify_graph_ops(ctx, res, V, want_edges, wdict):
 def _tri_case(ctx, desc, z, flat):
     import mouette as M
     O, P = M.operators, M.processing
-    V, F = np.asarray(z["V"], float), z["F"]
+    V, F = _rescale(ctx, desc, z["V"]), z["F"]
     a = z["topo"]
     nV, nF = len(V), len(F)
     rng = random.Random(desc["seed"] ^ 0xC08)
+    Lc = float(np.abs(V).max())  # magnitude of the coordinates: the unit in which absolute quantities are expressed
     tg = R.tri_geometry(V, F)
     want_edges = R.edges_from_faces(F)
     nE = len(want_edges)
@@ -365,12 +430,12 @@ def _tri_case(ctx, desc, z, flat):
         ctx.note("skipped_ill_conditioned_coordinates")
         return
     if nF >= 20 and not a["closed"]:
-        ctx.nontrivial(stable_hash([np.round(V, 9).tolist(), F]))
+        ctx.nontrivial(stable_hash([np.round(V / Lc, 9).tolist(), F, desc.get("scale", 1.0)]))
 
     fmt = desc.get("fmt", "csc")
     avec = [np.array([rng.gauss(0, 1) for _ in range(3)]) for _ in range(2)]
     avec.append(np.array([[1.0, 0, 0], [0, 1.0, 0], [0, 0, 1.0]][rng.randrange(3)]))
-    bs = [rng.uniform(-5, 5) for _ in avec]
+    bs = [rng.uniform(-5, 5) * Lc for _ in avec]
 
     def grad_bundle(conn_cls):
         def fn(m):
@@ -427,8 +492,11 @@ def _tri_case(ctx, desc, z, flat):
     ]
 
     def prepare(m):
-        if desc["history"] == "angles":
+        h = desc["history"]
+        if h == "angles":
             ctx.call("corner_angles", M.attributes.corner_angles, m, monitor="construct", abort=False)
+        elif h in ("cached_sparse", "cached_dense"):
+            _precache_surface(ctx, M, m, h == "cached_dense", random.Random(desc["seed"] ^ 0xCAC4E))
 
     meshes = _Meshes(ctx, lambda: build.surface(V, F, desc["vrows"], desc["irows"]), desc["history"], prepare)
     res = _run_ops(ctx, meshes, ops, rng, shuffle=desc["history"] != "fresh")
@@ -739,7 +807,7 @@ def _verify_gradient(ctx, name, r, V, F, tg, L, K, AF, avec, bs, rel):
                "rows 2f, 2f+1 of the real gradient are not the real and imaginary parts of row f of the complex gradient", Gr, inter, 1e-12)
     for a_, b_ in zip(avec, bs):
         fvals = V @ a_ + b_
-        scale = float(np.abs(fvals).max()) + float(np.linalg.norm(a_))
+        scale = float(np.abs(fvals).max()) + float(np.linalg.norm(a_)) * float(np.abs(V).max())
         wx = X @ a_
         wy = Y @ a_
         if Gc is not None:
@@ -803,7 +871,7 @@ def _poly_case(ctx, desc):
     import mouette as M
     O = M.operators
     z = _zoo(ctx, surfaces.make, desc["seed"], poly_only=True, max_size=desc["max_size"])
-    V, F = np.asarray(z["V"], float), z["F"]
+    V, F = _rescale(ctx, desc, z["V"]), z["F"]
     nV = len(V)
     rng = random.Random(desc["seed"] ^ 0xC08)
     want_edges = R.edges_from_faces(F)
@@ -840,7 +908,7 @@ def _vol_case(ctx, desc):
         z = {"V": Va, "C": [list(map(int, c)) for c in Ca], "cls": na}
     else:
         z = _zoo(ctx, volumes.make, desc["seed"], max_size=desc["max_size"], jitter=desc["jitter"])
-    V, C = np.asarray(z["V"], float), z["C"]
+    V, C = _rescale(ctx, desc, z["V"]), z["C"]
     nV, nC = len(V), len(C)
     rng = random.Random(desc["seed"] ^ 0xC08)
     fmt = desc.get("fmt", "csc")
@@ -849,7 +917,7 @@ def _vol_case(ctx, desc):
     ctx.cls("history:" + desc["history"])
     ctx.cls("position:" + ("generic" if desc["jitter"] else "regular"))
     if nC >= 20:
-        ctx.nontrivial(stable_hash([np.round(V, 9).tolist(), C]))
+        ctx.nontrivial(stable_hash([np.round(V / float(np.abs(V).max()), 9).tolist(), C, desc.get("scale", 1.0)]))
     vol = R.tet_volumes(V, C)
     total = float(vol.sum())
     # volumes are cubic in the coordinates: conditioning relative to the smallest cell
@@ -870,7 +938,13 @@ def _vol_case(ctx, desc):
         ("mass_cells_sqrt", "vol_mass", lambda m: O.volume_weight_matrix_cells(m, sqrt=True)),
         ("mass_cells_inverse_sqrt", "vol_mass", lambda m: O.volume_weight_matrix_cells(m, inverse=True, sqrt=True, format=fmt)),
     ]
-    meshes = _Meshes(ctx, lambda: build.volume(V, C, "list", desc["irows"]), desc["history"])
+    def prepare(m):
+        if desc["history"] in ("cached_sparse", "cached_dense"):
+            dense = desc["history"] == "cached_dense"
+            ctx.call("cell_volume", M.attributes.cell_volume, m, dense=dense, monitor="construct", abort=False)
+            ctx.cls("precached:volume:" + ("dense" if dense else "sparse"))
+
+    meshes = _Meshes(ctx, lambda: build.volume(V, C, "list", desc["irows"]), desc["history"], prepare)
     res = _run_ops(ctx, meshes, ops, rng, shuffle=desc["history"] != "fresh")
     _verify_graph_ops(ctx, res, V, want_edges, wdict)
 
@@ -944,7 +1018,7 @@ def _graph_case(ctx, desc):
     import mouette as M
     O = M.operators
     V, E, cls = graphs.make(desc["seed"], max_n=desc["max_n"])
-    V = np.asarray(V, float)
+    V = _rescale(ctx, desc, V)
     rng = random.Random(desc["seed"] ^ 0xC08)
     raw_E = [(b, a) if (desc["reverse"] and rng.random() < 0.5) else (a, b) for (a, b) in E]
     want_edges = {R.edge_key(a, b) for (a, b) in E}
